@@ -13,7 +13,7 @@ class Budget(Exception):
     pass
 
 
-BUDGETS = dict(latent_batches_per_population=1500, ins_draw_batches_per_draw=500, std_iterations_per_nlive=80, ins_iterations=200, likelihood_points=400000)
+BUDGETS = dict(latent_batches_per_population=1500, ins_draw_batches_per_draw=500, std_iterations_per_nlive=80, ins_iterations=60, likelihood_points=400000)
 
 
 CUR = {}
